@@ -236,7 +236,16 @@ def run_batch(case, R):
                 ow[k] = {prog.name: rand_series(rng, 1.0, 1e6, years=(2016, 2023))}
             else:
                 ow[k] = {prog.name: rand_series(rng, 0.01, 3.0, log=False, years=(2016, 2023))}
-        instr = at.ProgramInstructions(start_year=2016.0, alloc=ow.get("alloc"), capacity=ow.get("capacity"), coverage=ow.get("coverage"))
+        # an overwrite may also be given as a plain number (in force from the start year), including exactly zero
+        given = {k: dict(v) for k, v in ow.items()}
+        for k in kinds:
+            if rng.random() < 0.4:
+                hi_ = {"alloc": 1e6, "capacity": 1e4, "coverage": 1.0}[k]
+                val = [0.0, 0, float(np.float64(0.0)), float(rng.uniform(0, hi_)), float(rng.uniform(0, hi_))][int(rng.integers(0, 5))]
+                given[k] = {prog.name: val}
+                ow[k] = {prog.name: at.TimeSeries(t=2016.0, vals=float(val))}  # what it means
+                R.count("scalar_overwrites[%s]" % ("zero" if val == 0 else "positive"))
+        instr = at.ProgramInstructions(start_year=2016.0, alloc=given.get("alloc"), capacity=given.get("capacity"), coverage=given.get("coverage"))
         R.count("precedence_checks")
         alloc = pset.get_alloc(tvec, instr)[prog.name]
         exp_alloc = step_interp(ow["alloc"][prog.name], tvec) if "alloc" in ow else spend
